@@ -479,24 +479,48 @@ open AmVerif
 
 /-! ### `get_marks(k)` and the span of element `k` read the same machine state -/
 
-def countElems : List Item → Nat
+/-- units covered by the elements among the items -/
+def itemsWidth (wf : Op → Nat) : List Item → Nat
   | [] => 0
-  | .elem _ _ :: rest => countElems rest + 1
-  | _ :: rest => countElems rest
+  | .elem _ t :: rest => wf t + itemsWidth wf rest
+  | _ :: rest => itemsWidth wf rest
 
-/-- `get_marks(k)` = the machine's marks after the items before the k-th element -/
-theorem getMarksGo_split (pre : List Item) (e : OpId) (t : Op) (post : List Item) :
-    ∀ m : Msm, getMarksGo m (pre ++ .elem e t :: post) (countElems pre) = (pre.foldl Msm.step m).current.withoutUnmarks := by
+theorem getMarksGo_done (wf : Op → Nat) (m : Msm) (its : List Item) {index stop : Nat} (h : stop > index) :
+    getMarksGo wf m its index stop = m.out := by
+  cases its with
+  | nil => rfl
+  | cons it rest => cases it <;> simp [getMarksGo, h]
+
+/-- `get_marks(i)` for a unit index `i` inside the unit range of an element = the machine's marks after
+    the items before that element -/
+theorem getMarksGo_split (wf : Op → Nat) (pre : List Item) (e : OpId) (t : Op) (post : List Item) :
+    ∀ (m : Msm) (index stop : Nat), stop + itemsWidth wf pre ≤ index → index < stop + itemsWidth wf pre + wf t →
+      getMarksGo wf m (pre ++ .elem e t :: post) index stop = (pre.foldl Msm.step m).out := by
   induction pre with
-  | nil => intro m; simp [countElems, getMarksGo]
+  | nil =>
+    intro m index stop h1 h2
+    simp only [itemsWidth, Nat.add_zero] at h1 h2
+    have : ¬ stop > index := by omega
+    simp only [List.nil_append, getMarksGo, this, if_false, List.foldl_nil]
+    exact getMarksGo_done wf m post (by omega)
   | cons it rest ih =>
-    intro m
+    intro m index stop h1 h2
     cases it with
-    | mbegin id d => simp only [List.cons_append, countElems, getMarksGo, List.foldl_cons]; exact ih _
-    | mend id => simp only [List.cons_append, countElems, getMarksGo, List.foldl_cons]; exact ih _
+    | mbegin id d =>
+      simp only [itemsWidth] at h1 h2
+      have : ¬ stop > index := by omega
+      simp only [List.cons_append, getMarksGo, this, if_false, List.foldl_cons]
+      exact ih _ index stop h1 h2
+    | mend id =>
+      simp only [itemsWidth] at h1 h2
+      have : ¬ stop > index := by omega
+      simp only [List.cons_append, getMarksGo, this, if_false, List.foldl_cons]
+      exact ih _ index stop h1 h2
     | elem e' t' =>
-      simp only [List.cons_append, countElems, getMarksGo, List.foldl_cons, Msm.step]
-      exact ih m
+      simp only [itemsWidth] at h1 h2
+      have : ¬ stop > index := by omega
+      simp only [List.cons_append, getMarksGo, this, if_false, List.foldl_cons, Msm.step]
+      exact ih m index (stop + wf t') (by omega) (by omega)
 
 /-- the span walk carries the machine of the item walk, and its `marks` are that machine's non-null marks -/
 def SpanWalk.Synced (w : SpanWalk) : Prop := w.marks = w.msm.current.withoutUnmarks
